@@ -34,6 +34,8 @@ def handleInteger (acc : Acc) (kv : KV) (line : String) : Acc :=
     let impl := implRes op kv
     let mdl := model op a b
     let acc := { acc with checked := acc.checked + 1 }
+    -- 0. an operation that is total by its type panicked (the harness caught the unwind)
+    if kv.bool "panicked" then acc.report "SPECFAIL" "C19" s!"panic-{kv.str "op"}" line else
     -- 1. the specification evaluated on the implementation's answer
     let acc := if ok op a b impl then acc else acc.report "SPECFAIL" "C19" s!"spec-{kv.str "op"}" line
     -- extra observations on the same line: partial_cmp / `<` / `>=` must agree with `cmp`, and the
